@@ -79,13 +79,16 @@ def resLineParser (total : Nat) (v code : Bytes) (reason : Option Bytes) : Parse
     totalSize := total, version := some v, code := some code, reason := reason, state := .lineRcvd }
 
 theorem processLine_request (cfg : Cfg) (total : Nat) {m u v : Bytes} {url : Url} (rest : Bytes)
-    (hm : SP ∉ m) (hu : SP ∉ u) (hl : splitCRLF (m ++ SP :: (u ++ SP :: v)) = none)
+    (hne : m ≠ []) (hm : SP ∉ m) (hu : SP ∉ u) (hl : splitCRLF (m ++ SP :: (u ++ SP :: v)) = none)
     (hurl : Px.Url.fromBytes cfg.allowedSchemes u = .ok url) :
     processLine cfg { (init .request) with totalSize := total } (m ++ SP :: (u ++ SP :: v) ++ CRLF ++ rest) =
       .ok (reqLineParser cfg total m v url, !rest.isEmpty, rest) := by
   unfold processLine
   rw [splitCRLF_render hl rest]
-  simp only [init, splitN1_three hm hu, hurl, reqLineParser, Bool.false_or]
+  have hme : m.isEmpty = false := by cases m with
+    | nil => exact absurd rfl hne
+    | cons _ _ => rfl
+  simp only [init, splitN1_three hm hu, hme, Bool.false_eq_true, if_false, hurl, reqLineParser, Bool.false_or]
 
 /-- response status line with a reason phrase (which may contain spaces) -/
 theorem processLine_response3 (cfg : Cfg) (total : Nat) {v c r : Bytes} (rest : Bytes)
@@ -149,7 +152,7 @@ theorem bufBytes_init (ty : PType) : bufBytes (init ty) = [] := rfl
 
 /-- first loop iteration on a request: the request line -/
 theorem stepOnce_line_request (cfg : Cfg) (total : Nat) {m u v : Bytes} {url : Url} (rest : Bytes)
-    (hm : SP ∉ m) (hu : SP ∉ u) (hl : splitCRLF (m ++ SP :: (u ++ SP :: v)) = none)
+    (hne : m ≠ []) (hm : SP ∉ m) (hu : SP ∉ u) (hl : splitCRLF (m ++ SP :: (u ++ SP :: v)) = none)
     (hurl : Px.Url.fromBytes cfg.allowedSchemes u = .ok url) :
     stepOnce cfg { (init .request) with totalSize := total } (m ++ SP :: (u ++ SP :: v) ++ CRLF ++ rest) =
       .ok (reqLineParser cfg total m v url, !rest.isEmpty, rest) := by
@@ -158,7 +161,7 @@ theorem stepOnce_line_request (cfg : Cfg) (total : Nat) {m u v : Bytes} {url : U
     simp only [init]; decide
   have h2 : (({ (init .request) with totalSize := total } : Parser).state == PState.initialized) = true := by
     simp only [init]; decide
-  simp only [h1, if_false, h2, if_true, processLine_request cfg total rest hm hu hl hurl]
+  simp only [h1, if_false, h2, if_true, processLine_request cfg total rest hne hm hu hl hurl]
   have hty : (reqLineParser cfg total m v url).ty = .request := by
     simp only [reqLineParser]
     exact (setLineAttributes_same cfg _ url).1
@@ -205,7 +208,7 @@ theorem parse_pkt_of_line (cfg : Cfg) (ty : PType) (p1 : Parser) (H : HDict) (B 
 /-- **request packet**: start line and header block of a rendered request are consumed by the
     first two loop iterations; the rest is the body phase -/
 theorem parse_request_pkt (cfg : Cfg) {m u v : Bytes} {url : Url} (H : HDict) (B : Bytes)
-    (hm : SP ∉ m) (hu : SP ∉ u) (hl : splitCRLF (m ++ SP :: (u ++ SP :: v)) = none)
+    (hmne : m ≠ []) (hm : SP ∉ m) (hu : SP ∉ u) (hl : splitCRLF (m ++ SP :: (u ++ SP :: v)) = none)
     (hurl : Px.Url.fromBytes cfg.allowedSchemes u = .ok url)
     (hH : ∀ e ∈ H, HdrOK e.1 e.2) (pkt : Bytes)
     (hpkt : pkt = m ++ SP :: (u ++ SP :: v) ++ CRLF ++ (renderHdrs H ++ CRLF ++ B)) :
@@ -216,7 +219,7 @@ theorem parse_request_pkt (cfg : Cfg) {m u v : Bytes} {url : Url} (H : HDict) (B
   have hne : (renderHdrs H ++ CRLF ++ B).isEmpty = false := by simp [CRLF]
   have hlen : 0 < pkt.length := by
     simp only [hpkt, List.length_append, List.length_cons, CRLF]; omega
-  have hstep1 := stepOnce_line_request cfg pkt.length (renderHdrs H ++ CRLF ++ B) hm hu hl hurl
+  have hstep1 := stepOnce_line_request cfg pkt.length (renderHdrs H ++ CRLF ++ B) hmne hm hu hl hurl
   rw [← hpkt, hne] at hstep1
   exact parse_pkt_of_line cfg .request _ H B pkt hlen hstep1 rfl hH
 
